@@ -74,6 +74,17 @@ pub(crate) fn tokenize(
     fileid: usize,
     filetext: &str,
 ) -> Result<TokenResult, TokenizerError> {
+    tokenize_with_includes(filename, fileid, filetext, &mut vec![filename.full.clone()])
+}
+
+// include_stack contains the full names of the files that are currently being tokenized, i.e. the
+// chain of /include directives that lead to the current file. It is needed to detect recursive includes.
+fn tokenize_with_includes(
+    filename: &Filename,
+    fileid: usize,
+    filetext: &str,
+    include_stack: &mut Vec<std::ffi::OsString>,
+) -> Result<TokenResult, TokenizerError> {
     let mut filenames: Vec<Filename> = vec![filename.clone()];
     let mut filedatas: Vec<String> = vec![filetext.to_owned()];
     let filebytes = filetext.as_bytes();
@@ -120,15 +131,28 @@ pub(crate) fn tokenize(
                 let incname = &filetext[filename_start..filename_end];
                 let incfilename = loader::make_include_filename(incname, &filename.full);
 
+                // a file that includes itself (directly or indirectly) can never be loaded completely
+                if include_stack.contains(&incfilename) {
+                    return Err(TokenizerError::IncludeFileError {
+                        filename: filename.to_string(),
+                        line: token_subseq[0].line,
+                        incname: incname.to_owned(),
+                    });
+                }
+
                 // check if incname is an accessible file
                 let incpathref = Path::new(&incfilename);
                 let loadresult = loader::load(incpathref);
                 if let Ok(incfiledata) = loadresult {
-                    let mut tokresult = tokenize(
+                    include_stack.push(incfilename.clone());
+                    let tokresult = tokenize_with_includes(
                         &Filename::new(incfilename, incname),
                         next_fileid,
                         &incfiledata,
-                    )?;
+                        include_stack,
+                    );
+                    include_stack.pop();
+                    let mut tokresult = tokresult?;
 
                     next_fileid += tokresult.filenames.len();
 
